@@ -30,7 +30,7 @@ EXIT_GRACE_S = 30.0        # after run() ended: executors and their children mus
 BUSY_WAIT_S = 2.5          # scenarios with a busy companion task: how long fault and companion wait for each other
 
 KINDS = ["none", "raise", "sysexit", "osexit", "sigkill", "kill_ds", "kill_shm", "term_shm", "term_ds",
-         "kill_sibling"]
+         "kill_sibling", "kill_siblings"]
 POINTS = ["before", "between", "after"]
 
 
@@ -70,14 +70,16 @@ def inject(kind: str, code: int, piddir: str) -> None:
     elif kind in ("kill_shm", "term_shm"):
         os.kill(pids["shm"], signal.SIGKILL if kind == "kill_shm" else signal.SIGTERM)
         _pid_gone(pids["shm"])
-    elif kind == "kill_sibling":
-        # another worker process of the same executor (idle or busy)
+    elif kind in ("kill_sibling", "kill_siblings"):
+        # another worker process of the same executor (idle or busy) / a wave: all the other workers at once
         me = os.getpid()
-        for p in pids_of_parent(os.getppid()):
-            if p != me and p not in (pids["ds"], pids["shm"]):
-                os.kill(p, signal.SIGKILL)
-                _pid_gone(p)
-                break
+        victims = [p for p in pids_of_parent(os.getppid()) if p != me and p not in (pids["ds"], pids["shm"])]
+        if kind == "kill_sibling":
+            victims = victims[:1]
+        for p in victims:
+            os.kill(p, signal.SIGKILL)
+        for p in victims:
+            _pid_gone(p)
     else:
         raise AssertionError(kind)
 
@@ -98,11 +100,14 @@ def pids_of_parent(ppid: int) -> list[int]:
 
 # ----------------------------------------------------------------------------- the job
 EXPECTED = {"c0.0": 11, "c1.0": 40, "s.0": 7, "g.1": 20}
+EXTRA_BASE = 100           # extra task e<i> returns EXTRA_BASE + i
 
 
 def make_job(sc: dict, piddir: str):
     """g (generator, outputs "0","1") -> c0 = g.0 + 1, c1 = g.1 * 2; s = 7 independent.
     External outputs: c0, c1, s and (shape "gout") g.1 itself.
+    extra = n: n more independent tasks e0..e<n-1> (e<i> = 100 + i), all external outputs: they are published to the
+    host's shared memory and stay there until the end, so the shm server has something to sweep at the teardown.
     busy = "sleep" | "gen": one more independent task z (plain / generator) that never ends once the fault is armed,
     so that the teardown meets a worker which will not read its shutdown request."""
     from cascade.low.builders import JobBuilder, TaskBuilder
@@ -176,16 +181,25 @@ def make_job(sc: dict, piddir: str):
         zd = TaskDefinition(func=TaskDefinition.func_enc(zg), environment=[], input_schema={},
                             output_schema={"0": "int", "1": "int"})
         b = b.with_node("z", TaskInstance(definition=zd, static_input_kw={}, static_input_ps={}))
+    def mk_extra(i):
+        def e() -> int:
+            return EXTRA_BASE + i
+        return e
+
+    n_extra = int(sc.get("extra", 0))
+    for i in range(n_extra):
+        b = b.with_node(f"e{i}", TaskBuilder.from_callable(mk_extra(i)))
     job = b.build().get_or_raise()
     outs = [DatasetId("c0", "0"), DatasetId("c1", "0"), DatasetId("s", "0")]
     if sc.get("shape") == "gout":
         outs.append(DatasetId("g", "1"))
+    outs += [DatasetId(f"e{i}", "0") for i in range(n_extra)]
     job.ext_outputs = outs
     return job
 
 
 # ----------------------------------------------------------------------------- executor launcher (mirrors benchmarks.__main__.launch_executor)
-def launch_executor(job, caddr, workers, host, port_base, piddir, quiet):
+def launch_executor(job, caddr, workers, host, port_base, piddir, quiet, sweep_delay=0.0):
     import logging.config
 
     from cascade.executor.config import logging_config
@@ -205,6 +219,18 @@ def launch_executor(job, caddr, workers, host, port_base, piddir, quiet):
             pass
     logging.config.dictConfig(cfg)
     os.environ["CASCADE_GPU_COUNT"] = "0"
+    if sweep_delay:
+        # The environment decides how long the shm server's at-exit sweep takes (number and size of the segments, the
+        # paged-out files it has to remove).  With a handful of tiny segments it is over in ~100 us, and whether a
+        # server that is cut short leaves anything is a coin toss; here the sweep takes `sweep_delay` seconds longer.
+        # Seam replaced from outside, in this process, before the shm server is forked from it.
+        import cascade.shm.dataset as sd
+        orig_atexit = sd.Manager.atexit
+
+        def slow_atexit(self):
+            time.sleep(sweep_delay)
+            return orig_atexit(self)
+        sd.Manager.atexit = slow_atexit
     ex = Executor(job, caddr, workers, host, port_base, None)
     with open(os.path.join(piddir, f"{os.getpid()}.json"), "w") as f:
         json.dump({"shm": ex.shm_process.pid, "ds": ex.data_server.pid, "host": host}, f)
@@ -310,7 +336,7 @@ def run_scenario(sc: dict) -> dict:
         caddr = f"tcp://localhost:{base}"
         ctx = get_context("fork")
         for i, h in enumerate(hosts):
-            p = ctx.Process(target=launch_executor, args=(job, caddr, nw, h, base + 1 + i * 10, piddir, quiet))
+            p = ctx.Process(target=launch_executor, args=(job, caddr, nw, h, base + 1 + i * 10, piddir, quiet, float(sc.get("sweep_delay", 0.0))))
             p.start()
             ps.append(p)
         result: dict = {}
@@ -346,6 +372,8 @@ def run_scenario(sc: dict) -> dict:
         obs["registered"] = "t_registered" in result
         obs["run_s"] = round(t1 - result.get("t_registered", t0), 2)
         obs.pop("t_registered", None)
+        # what the hosts hold in shared memory when the run has ended (the teardown is under way or about to begin)
+        obs["shm_at_end"] = len(shm_segments(hosts))
         # executors (and everything they started) must now go away on their own
         grace_end = time.time() + EXIT_GRACE_S
         left = None
